@@ -6,6 +6,7 @@ package pbgen
 import (
 	"math/rand"
 	"sort"
+	"strings"
 
 	"google.golang.org/protobuf/proto"
 	"google.golang.org/protobuf/reflect/protoreflect"
@@ -224,4 +225,66 @@ func (g *Gen) TopPaths(md protoreflect.MessageDescriptor, max int) []string {
 	}
 	sort.Strings(out)
 	return out
+}
+
+// ReadMaskPaths draws read-mask paths from md's path tree: 1..max paths, each descending with probability
+// 1/2 per level (up to depth 3) through singular message fields AND through repeated message fields (the
+// filter then applies to every element); maps and scalars end a path. Returns nil for messages without fields.
+func (g *Gen) ReadMaskPaths(md protoreflect.MessageDescriptor, max int) []string {
+	if md.Fields().Len() == 0 {
+		return nil
+	}
+	n := 1 + g.R.Intn(max)
+	seen := map[string]bool{}
+	var out []string
+	for i := 0; i < n; i++ {
+		cur := md
+		path := ""
+		for depth := 0; depth < 3; depth++ {
+			fds := cur.Fields()
+			if fds.Len() == 0 {
+				break
+			}
+			// prefer message-typed fields when descending so that nested paths are common
+			fd := fds.Get(g.R.Intn(fds.Len()))
+			if g.R.Intn(2) == 0 {
+				var msgs []protoreflect.FieldDescriptor
+				for k := 0; k < fds.Len(); k++ {
+					if f := fds.Get(k); f.Message() != nil && !f.IsMap() {
+						msgs = append(msgs, f)
+					}
+				}
+				if len(msgs) > 0 {
+					fd = msgs[g.R.Intn(len(msgs))]
+				}
+			}
+			if path != "" {
+				path += "."
+			}
+			path += string(fd.Name())
+			if fd.Message() == nil || fd.IsMap() || g.R.Intn(2) == 0 {
+				break
+			}
+			cur = fd.Message()
+		}
+		if !seen[path] {
+			seen[path] = true
+			out = append(out, path)
+		}
+	}
+	// drop paths that have a listed prefix (a.b is redundant next to a) to keep masks normalised
+	sort.Strings(out)
+	var norm []string
+	for _, p := range out {
+		covered := false
+		for _, q := range norm {
+			if strings.HasPrefix(p, q+".") {
+				covered = true
+			}
+		}
+		if !covered {
+			norm = append(norm, p)
+		}
+	}
+	return norm
 }
